@@ -56,10 +56,13 @@ def make(rng, sid):
         p["call"] = ("RD", u[1:], e[1:], nm, sfx)
         p["dirs"] = [u[1:], e[1:]]
     restr = {"owner": rng.random() < 0.5, "group": rng.random() < 0.5, "nosymlink": rng.random() < 0.5}
+    # econf_requirePermissions in force as well: bits every file and directory of the tree has (files 0644, directories 0755,
+    # links 0777), or bits that the files / the directories lack
+    perms = rng.choice([None, None, ("644", "755"), ("400", "001"), ("001", "755"), ("644", "002")])
     entry = None
     if p["call"][0] == "RD" and rng.random() < 0.3:
         entry = "RH"
-    s = Scenario(sid, {"p": p, "tree": t, "attrs": attrs, "restr": restr, "entry": entry or p["call"][0], "shape": shape})
+    s = Scenario(sid, {"p": p, "tree": t, "attrs": attrs, "restr": restr, "entry": entry or p["call"][0], "shape": shape, "perms": perms})
     t.emit(s)
     if relative:
         s.add("CD", h(b"/"))
@@ -70,6 +73,8 @@ def make(rng, sid):
         s.add("G", "group", GID)
     if restr["nosymlink"]:
         s.add("G", "nosymlink", 1)
+    if perms:
+        s.add("G", "perms", perms[0], perms[1])
     s.add("LOGOPEN", 1)
     gen_tree.emit_read(s, p, 0, entry=entry)
     s.add("RAW", 0)
@@ -117,7 +122,7 @@ def scenarios(tier, rng):
     return out
 
 
-def offence(attr, ro, rg, rl):
+def offence(attr, ro, rg, rl, perms=None, isdir=False):
     u, g, link = attr
     if rl and link:
         return 20
@@ -125,6 +130,12 @@ def offence(attr, ro, rg, rl):
         return 16
     if rg and g != GID:
         return 17
+    if perms:
+        mode = 0o777 if link else (0o755 if isdir else 0o644)
+        if mode & int(perms[0], 8) == 0:
+            return 18
+        if 0o755 & int(perms[1], 8) == 0:
+            return 19
     return None
 
 
@@ -163,9 +174,8 @@ def oracle(s, lines):
     code = None
     for f in order:
         a = m["attrs"].get(trees.norm(f))
-        if a is None:
-            continue        # directories ('.', '..', sub-directories): root owned, not links
-        code = offence(a, r["owner"], r["group"], r["nosymlink"])
+        isdir = a is None   # directories ('.', '..', sub-directories): root owned, not links
+        code = offence(a or (UID, GID, False), r["owner"], r["group"], r["nosymlink"], m.get("perms"), isdir)
         if code is not None:
             break
     raws = parse_raws(lines)
